@@ -1,18 +1,16 @@
 (* C11 - Norm and semi-norm integrands are the classical Sobolev integrands.
    Property theorems only (exact lemma + Print Assumptions).
 
-   [norm_integrand semi k lg d inp] (Model/NormM.v) is the integrand assembled by Norm.__new__ /
-   SemiNorm.__new__ and lowered by TerminalExpr with the Grad/Hessian/Dot/Inner tables of the library;
-   [classical S semi k lg d cs] (Proofs/NormP.v) is  sum_c e_c^2  (+ sum_i sum_c (d_i e_c)^2)
-   (+ sum_ij (d_i d_j e)^2), the semi-norm being the highest-order term alone; [dfield] stands for
-   "all smooth functions and all points" (DESIGN 4.2).
+   [norm_integrand semi k lg d inp] (Model/NormM.v) is the integrand assembled by Norm.__new__ / SemiNorm.__new__ and
+   lowered by TerminalExpr with the Grad / Hessian / Dot / Inner tables of the library (as repaired by 8b3531a, d70b390,
+   1e0454e); [classical S semi k lg d cs] (Proofs/NormP.v) is  sum_c e_c^2 (+ sum_i sum_c (d_i e_c)^2)
+   (+ sum_ij (d_i d_j e)^2), the semi-norm being the highest-order term alone; [dfield] stands for "all smooth
+   functions and all points" (DESIGN 4.2).
 
-   FULL STATEMENT (false for the faithful model, see C11_h2_refuted):
-     forall S semi k lg d inp r, 1 <= d <= 3 -> wf_input d inp -> norm_integrand semi k lg d inp = Ok r ->
-       inp_sdf S lg inp -> sev r = classical S semi k lg d (map sev (input_comps inp))
-   PROVED with the minimal guard  (k <> H2 \/ d = 1)  : C11_norm_is_sobolev_partial.
-   For H2 in 2-D / 3-D the assembled integrand is characterised exactly (first Hessian row only):
-   C11_h2_first_row_only, C11_h2_deficit, C11_h2_wrong_when_deficit_nonzero. *)
+   FULL STATEMENT, proved: C11_norm_is_sobolev (every kind, scalar and vector, d = 1,2,3, norms and semi-norms;
+   the H2 norm of a vector is refused by the library: C11_h2_vector_refused).
+   Before the repairs the statement was false for H2 in 2-D / 3-D (first Hessian row only) and 1-D H1/H2 raised:
+   C11_history_h2_first_row_only, C11_history_1d_type_error. *)
 From Coq Require Import String ZArith QArith List Bool Arith.
 From V Require Import Core.Terminal Core.DField Core.SExpr Core.Classical Model.DOpM Proofs.DOpP.
 From V Require Import Model.IntegralsM Proofs.IntegralsP.
@@ -21,12 +19,11 @@ Import ListNotations.
 
 Notation sev S e := (ev S (sx2t e)).
 
-Theorem C11_norm_is_sobolev_partial : forall (S : dfield) semi k lg d inp r,
+Theorem C11_norm_is_sobolev : forall (S : dfield) semi k lg d inp r,
   (1 <= d <= 3)%nat -> wf_input d inp -> norm_integrand semi k lg d inp = Ok r -> inp_sdf S lg inp ->
-  (k <> H2 \/ d = 1%nat) ->
   sev S r = classical S semi k lg d (map (fun e => sev S e) (input_comps inp)).
-Proof. exact norm_partial. Qed.
-Print Assumptions C11_norm_is_sobolev_partial.
+Proof. exact norm_full. Qed.
+Print Assumptions C11_norm_is_sobolev.
 
 (* the semi-norm integrand is the highest-order term alone: norm = semi-norm + the norm one order lower *)
 Theorem C11_seminorm_is_top_term : forall (S : dfield) k lg d cs,
@@ -35,37 +32,6 @@ Theorem C11_seminorm_is_top_term : forall (S : dfield) k lg d cs,
          (match k with L2 => f0 S | H1 => classical S false L2 lg d cs | H2 => classical S false H1 lg d cs end).
 Proof. exact classical_split. Qed.
 Print Assumptions C11_seminorm_is_top_term.
-
-Theorem C11_h2_first_row_only : forall (S : dfield) semi lg d e r,
-  (2 <= d <= 3)%nat -> norm_integrand semi H2 lg d (NS e) = Ok r -> inp_sdf S lg (NS e) ->
-  sev S r = assembled_h2 S semi lg d (sev S e).
-Proof. exact norm_h2_first_row. Qed.
-Print Assumptions C11_h2_first_row_only.
-
-Theorem C11_h2_deficit : forall (S : dfield) semi lg d e r,
-  (2 <= d <= 3)%nat -> norm_integrand semi H2 lg d (NS e) = Ok r -> inp_sdf S lg (NS e) ->
-  classical S semi H2 lg d [sev S e] = fadd S (sev S r) (h2_deficit S lg d (sev S e)).
-Proof. exact norm_h2_deficit. Qed.
-Print Assumptions C11_h2_deficit.
-
-Theorem C11_h2_deficit_2d : forall (S : dfield) lg c,
-  h2_deficit S lg 2 c = fadd S (sqF S (D S lg 1 (D S lg 0 c))) (sqF S (D S lg 1 (D S lg 1 c))).
-Proof. exact h2_deficit_2d. Qed.
-Print Assumptions C11_h2_deficit_2d.
-
-Theorem C11_h2_wrong_when_deficit_nonzero : forall (S : dfield) semi lg d e r,
-  (2 <= d <= 3)%nat -> norm_integrand semi H2 lg d (NS e) = Ok r -> inp_sdf S lg (NS e) ->
-  h2_deficit S lg d (sev S e) <> f0 S -> sev S r <> classical S semi H2 lg d [sev S e].
-Proof. exact norm_h2_wrong. Qed.
-Print Assumptions C11_h2_wrong_when_deficit_nonzero.
-
-Theorem C11_h2_refuted :
-  exists semi lg d e r t nu,
-    norm_integrand semi H2 lg d (NS e) = Ok r /\
-    sobolev_ref semi H2 lg d true [sx2t e] = Some t /\
-    Qeq_bool (jeval nu (sx2t r)) (jeval nu t) = false.
-Proof. exact h2_refuted. Qed.
-Print Assumptions C11_h2_refuted.
 
 (* the reference integrand of the case files (Core/Classical.v operators) denotes the classical sum *)
 Theorem C11_reference_sound : forall (S : dfield) semi k lg d (scalar : bool) cs t,
@@ -77,7 +43,6 @@ Print Assumptions C11_reference_sound.
 
 Theorem C11_model_matches_reference : forall (S : dfield) semi k lg d inp r t,
   (1 <= d <= 3)%nat -> wf_input d inp -> norm_integrand semi k lg d inp = Ok r -> inp_sdf S lg inp ->
-  (k <> H2 \/ d = 1%nat) ->
   sobolev_ref semi k lg d (input_scalar inp) (map sx2t (input_comps inp)) = Some t ->
   sev S r = ev S t.
 Proof. exact norm_matches_reference. Qed.
@@ -94,27 +59,25 @@ Theorem C11_mapped_gradient_reference : forall (S : dfield) J Jinv dJ u pg,
 Proof. exact pulled_grad_solves. Qed.
 Print Assumptions C11_mapped_gradient_reference.
 
-(* error behaviour of the faithful model (each confirmed on the implementation by the check) *)
-Theorem C11_1d_h1_value_only_if : forall semi lg e r,
-  norm_integrand semi H1 lg 1 (NS e) = Ok r ->
-  Forall (fun cr => is_number (snd cr) = true \/ exists a, dop lg 0 (snd cr) = Some a /\ is_dobj a = true) (lin_terms e).
-Proof. exact norm_1d_h1_value_only_if. Qed.
-Print Assumptions C11_1d_h1_value_only_if.
+(* what the library did before the repairs (the check reports it again if a repair is reverted) *)
+Example C11_history_h2_first_row_only :
+  let u := SAt (AFld true "u" 0 SNone []) in
+  let uxx := SAt (AFld true "u" 0 SNone [2%nat]) in
+  let uxy := SAt (AFld true "u" 0 SNone [1%nat; 1%nat]) in
+  let uxz := SAt (AFld true "u" 0 SNone [1%nat; 0%nat; 1%nat]) in
+  dhess_before_8b3531a true 2 u = Ok (SAdd [prod2 uxx uxx; prod2 uxy uxy]) /\
+  dhess_before_8b3531a true 3 u = Ok (SAdd [prod2 uxx uxx; prod2 uxy uxy; prod2 uxz uxz]).
+Proof. exact h2_before_8b3531a_first_row_only. Qed.
+Print Assumptions C11_history_h2_first_row_only.
 
-Example C11_1d_h1_type_error :
+Example C11_history_1d_type_error :
   let u := SAt (AFld true "u" 0 SNone []) in
   let x := SAt (ACoord true 0) in
-  forall semi, norm_integrand semi H1 true 1 (NS (SAdd [u; SMul [sZ (-1); SPow x (sZ 2)]])) = Er ETypeError
-            /\ norm_integrand semi H2 true 1 (NS (SAdd [u; SMul [sZ (-1); SPow x (sZ 2)]])) = Er ETypeError
-            /\ (exists r, norm_integrand semi H1 true 1 (NS (SAdd [u; SMul [sZ (-3); SAt (AFld true "v" 0 SNone [])]; sZ 5])) = Ok r).
-Proof. exact norm_1d_h1_type_error_example. Qed.
-Print Assumptions C11_1d_h1_type_error.
+  (do a <- grad_kd true 1 (VS (SAdd [u; SMul [sZ (-1); SPow x (sZ 2)]])); dot_1d_before_d70b390 a a) = Er ETypeError.
+Proof. exact h1_1d_before_d70b390_type_error. Qed.
+Print Assumptions C11_history_1d_type_error.
 
-Theorem C11_1d_vector_h1_name_error : forall semi lg x a,
-  dop lg 0 x = Some a -> norm_integrand semi H1 lg 1 (NV [[x]]) = Er ENameError.
-Proof. exact norm_1d_vector_h1_name_error. Qed.
-Print Assumptions C11_1d_vector_h1_name_error.
-
+(* limits of the faithful model *)
 Theorem C11_h2_vector_refused : forall semi lg d rows, norm_integrand semi H2 lg d (NV rows) = Er ENotImplemented.
 Proof. exact norm_h2_vector_refused. Qed.
 Print Assumptions C11_h2_vector_refused.
@@ -137,7 +100,7 @@ Example C11_nonvacuous :
   let x := SAt (ACoord true 0) in
   let e := SAdd [u; SMul [sZ (-2); x]] in
   (exists r, norm_integrand false H1 true 2 (NS e) = Ok r) /\
-  (exists r, norm_integrand true H2 true 1 (NS u) = Ok r) /\
+  (exists r, norm_integrand false H2 true 2 (NS e) = Ok r) /\
   forall S : dfield, inp_sdf S true (NS e).
 Proof.
   simpl. split; [eexists; vm_compute; reflexivity|]. split; [eexists; vm_compute; reflexivity|].
@@ -146,7 +109,7 @@ Proof.
   split.
   - constructor; [|constructor]. simpl. repeat split; exact N1.
   - intros i e a Hin H. unfold input_pieces in Hin. simpl in Hin. revert H.
-    destruct Hin as [<-|[<-|[<-|[]]]]; destruct i as [|[|i]];
+    destruct Hin as [<-|[]]; destruct i as [|[|i]];
       match goal with |- ?l = _ -> _ => let v := eval vm_compute in l in change l with v end;
       intros [= <-]; simpl; repeat split; auto; exact N1.
 Qed.
